@@ -1,0 +1,21 @@
+package tredactemail
+
+import (
+	"testing"
+
+	"github.com/stretchr/testify/assert"
+)
+
+func TestRedactEmailNumericDomain(t *testing.T) {
+	t.Run("numbers are not domains", func(t *testing.T) {
+		assert.Equal(t, "number: hello@123.456", redactEmail("number: hello@123.456"))
+		assert.Equal(t, "at hello@10.0.0.1 now", redactEmail("at hello@10.0.0.1 now"))
+		assert.Equal(t, "x@163", redactEmail("x@163"))
+	})
+	t.Run("digits at both ends of a domain", func(t *testing.T) {
+		assert.Equal(t, "REDACTED", redactEmail("bob@163.com_2024"))
+		assert.Equal(t, "from REDACTED,", redactEmail("from bob@163.com-1,"))
+		assert.Equal(t, "REDACTED", redactEmail("bob@1a1"))
+		assert.Equal(t, "REDACTED", redactEmail("bob@163.com"))
+	})
+}
